@@ -5,6 +5,7 @@ import warnings
 
 from .common import (COMPONENTS, EngineCrash, Monitor, Stuck, Violation, World, gen_config, note_trace,
                      run_key_of, std_finish, opseq)
+from sim import boot
 from sim.play import cards_str, where_of
 from sim.snapshot import snapshot, diff, derived
 
@@ -27,7 +28,9 @@ RULE = ('one run = one simulated hand (all variants, automation subsets, modes) 
         'only ValueError (UserWarning in error mode) and leaves every field and derived query unchanged; an accepted '
         'one (fired at a deep copy) succeeds and is applied to the player the explicit index names. evaluations = '
         'requests issued; non-trivial = requests at states where the hand is live; distinct = distinct (operation, '
-        'argument class, phase, outcome) tuples x configuration class digests')
+        'argument class, phase, outcome) tuples x configuration class digests. Fault kinds: bad_request, warn_flip, and '
+        'rng_flip - in half of the attacks the shuffle seam is re-keyed between the query, the verifier and the operation of '
+        'each request, so an answer that depends on how a replenished deck happens to be shuffled shows as a disagreement')
 ASSUMPTIONS = [
     'only documented argument types; player indices stay within 0..n-1',
     'unknown cards ("??") are requested only where nothing has to read them (burns, face-down hole cards): dealing them '
@@ -208,18 +211,33 @@ class Adversary:
         self.world = world
         self.ctx = ctx
         self.classes = set()
+        self.flip = False
+        self.serial = 0
 
     def attack(self):
         world = self.world
         st = world.state
         phase = phase_of(world)
         reqs = requests(world)
-        for mode in ('ignore', 'error'):
-            with warnings.catch_warnings():
-                warnings.simplefilter('error' if mode == 'error' else 'ignore')
-                for name, args, label in reqs:
-                    self.one(st, name, args, label, mode, phase)
+        # rng_flip: the query, the verifier and the operation of one request each see a DIFFERENT shuffle (the keyed
+        # shuffle seam is re-keyed in between), so an answer that depends on the order in which a replenished deck
+        # happens to come out shows as a disagreement instead of being masked by the deterministic seam
+        self.flip = world.ch.chance('adv.rng_flip', 1, 2)
+        try:
+            for mode in ('ignore', 'error'):
+                with warnings.catch_warnings():
+                    warnings.simplefilter('error' if mode == 'error' else 'ignore')
+                    for name, args, label in reqs:
+                        self.one(st, name, args, label, mode, phase)
+        finally:
+            boot.set_run_key(world.run_key)
         self.ctx.fault('warn_flip')
+        if self.flip:
+            self.ctx.fault('rng_flip')
+
+    def rekey(self, step):
+        if self.flip:
+            boot.set_run_key('%s|%d%s' % (self.world.run_key, self.serial, step))
 
     def one(self, st, name, args, label, mode, phase):
         can, verify = OPS[name]
@@ -236,6 +254,8 @@ class Adversary:
             if derived(st) != before_d:
                 raise Violation('C08.mutation', f'{what} {name}{args} [{label}, warnings={mode}] changed a derived query',
                                 op=name, step=what.split()[0])
+        self.serial += 1
+        self.rekey('q')
         try:
             q = getattr(st, can)(*args)
         except Exception as e:      # noqa: BLE001
@@ -244,6 +264,7 @@ class Adversary:
         if q is not True and q is not False:
             raise Violation('C08.query_type', f'{can}{args} returned {q!r}, not a bool', op=name)
         unchanged('query')
+        self.rekey('v')
         try:
             getattr(st, verify)(*args)
             v = True
@@ -260,6 +281,7 @@ class Adversary:
             raise Violation('C08.disagree', f'{can}{args} says {q} but {verify} {"passes" if v else "refuses"} '
                             f'[{label}, warnings={mode}, phase={phase}]', op=name)
         outcome = 'accepted' if q else 'refused'
+        self.rekey('o')
         self.classes.add((name, label, phase, mode, outcome))
         if not q:
             ctx.fault('bad_request')
